@@ -28,10 +28,11 @@ type field struct {
 	CountOf string  // this integer field holds the number of elements of list field CountOf
 	Elem    []field // structlist: the integer fields of the element structure
 	ElemT   string
-	Rest    bool // byte buffer that the decoder takes as "everything that is left" of its block
-	FixLen  int  // byte buffer whose length the decoder fixes (pad conventions); -1 = free
-	Opt     bool // emitted only when non-zero (read from Marshal)
-	Cond    bool // emitted under some other run-time condition (first use in Marshal is inside a nested block)
+	LenBy   string // byte buffer: the integer field that holds its length (read from Unmarshal)
+	Rest    bool   // byte buffer that the decoder takes as "everything that is left" of its block
+	FixLen  int    // byte buffer whose length the decoder fixes (pad conventions); -1 = free
+	Opt     bool   // emitted only when non-zero (read from Marshal)
+	Cond    bool   // emitted under some other run-time condition (first use in Marshal is inside a nested block)
 }
 
 type cmd struct {
@@ -149,8 +150,10 @@ func main() {
 			}
 		}
 		rel := map[string]string{}
+		lenBy := map[string]string{}
 		for _, m := range relRe.FindAllStringSubmatch(unmarshalSrc[c.Name], -1) {
 			rel[m[2]] = m[1]
+			lenBy[m[1]] = m[2]
 		}
 		fix := map[string]int{}
 		for _, m := range fixRe.FindAllStringSubmatch(unmarshalSrc[c.Name], -1) {
@@ -242,6 +245,7 @@ func main() {
 				fl.Kind = "skip"
 			}
 			if fl.Kind == "bytes" {
+				fl.LenBy = lenBy[fl.Name]
 				fl.Rest = rest[fl.Name]
 				if n, ok := fix[fl.Name]; ok {
 					fl.FixLen = n
@@ -291,6 +295,11 @@ var fillers = map[string]string{
 	"Dialects":            "c.%[1]s.Dialects = []string{\"NT LM 0.12\"}",
 }
 
+// pad lengths the decoder derives from other lengths (must be filled after the buffers they depend on: declared order)
+var fixExpr = map[string]string{
+	"SessionSetupAndxRequest.Pad": "(22 + 3 + len(c.OEMPassword) + len(c.UnicodePassword)) % 2",
+}
+
 func emit(out string, cmds []cmd) {
 	var sb strings.Builder
 	sb.WriteString(`package commands
@@ -331,6 +340,18 @@ var _ securitymode.SecurityMode
 				lenTargets[f.Name] = true
 			}
 		}
+		// buffers described by different length fields get different lengths (L, L+1, L+2, ...), so that a decoder
+		// which advances by a sibling's length is not hidden by equal sizes
+		lenExpr := map[string]string{}
+		{
+			k := 0
+			for _, f := range c.Fields {
+				if f.Kind == "int" && f.LenOf != "" {
+					lenExpr[f.Name] = []string{"L", "L + 1", "L + 2"}[k%3]
+					k++
+				}
+			}
+		}
 		for _, f := range c.Fields {
 			tag := n + "." + f.Name
 			switch f.Kind {
@@ -346,15 +367,19 @@ var _ securitymode.SecurityMode
 				if f.CountOf != "" {
 					fmt.Fprintf(&sb, "\tc.%s = %s(L) // number of elements of %s (relation read from Unmarshal)\n", f.Name, f.Type, f.CountOf)
 				} else if f.LenOf != "" {
-					fmt.Fprintf(&sb, "\tc.%s = %s(L) // length of %s (relation read from Unmarshal)\n", f.Name, f.Type, f.LenOf)
+					fmt.Fprintf(&sb, "\tc.%s = %s(%s) // length of %s (relation read from Unmarshal)\n", f.Name, f.Type, lenExpr[f.Name], f.LenOf)
 				} else {
 					fmt.Fprintf(&sb, "\tc.%s = %s(vU%d(%q))\n", f.Name, f.Type, 8*f.Width, tag)
 				}
 			case "quad":
 				fmt.Fprintf(&sb, "\tc.%s.QuadPart = vU64(%q)\n", f.Name, tag)
 			case "bytes":
-				if f.FixLen >= 0 {
+				if ex, ok := fixExpr[n+"."+f.Name]; ok {
+					fmt.Fprintf(&sb, "\tc.%s = vBytes(%q, %s) // the decoder derives this length (alignment convention)\n", f.Name, tag, ex)
+				} else if f.FixLen >= 0 {
 					fmt.Fprintf(&sb, "\tc.%s = vBytes(%q, %d) // the decoder fixes this length (pad convention)\n", f.Name, tag, f.FixLen)
+				} else if ex, ok := lenExpr[f.LenBy]; ok {
+					fmt.Fprintf(&sb, "\tc.%s = vBytes(%q, %s)\n", f.Name, tag, ex)
 				} else {
 					fmt.Fprintf(&sb, "\tc.%s = vBytes(%q, L)\n", f.Name, tag)
 				}
